@@ -154,6 +154,8 @@ class MasterWorld:
         self.pending_truth = []  # freeze/unfreeze events not yet processed
         self.bl_idx = 0
         self.late = False
+        self.split_after = None  # deviation 'S': admin writes before the split
+        self.admin_writes = 0
         self.undelivered = []   # [(path, children)] captured, not yet processed
         self.put_log = []
         self.srv_variant = {n: 0 for n, s in cfg['servers'].items()
@@ -200,6 +202,24 @@ class MasterWorld:
         the *successful* mutations of the current master session (taken from
         tree.log); a crash is injected at the first operation issued after
         `crash_at` of them reached ZooKeeper."""
+        if client.sid == ADMIN_SID and self.split_after is not None and \
+                op in ('create', 'set', 'delete'):
+            # deviation 'S': the master's watches fire between two writes of
+            # ONE admin API call (its handlers and a cycle run on what has
+            # reached ZooKeeper so far)
+            if self.admin_writes == self.split_after:
+                self.split_after = None
+                self.stats['admin_calls_split'] += 1
+                self.deliver(z.EVENTS, z.SCHEDULED)
+                # the stored state is half-way through an admin call the
+                # master has not been told about: clauses that compare with
+                # what is stored wait for the end of the call
+                saved, self.monitors = self.monitors, []
+                try:
+                    self.cycle()
+                finally:
+                    self.monitors = saved
+            self.admin_writes += 1
         if client.sid != self.master_sid:
             return
         log = self.tree.log
@@ -358,6 +378,11 @@ class MasterWorld:
         self.late = (cyc == 'L')
         if self.late:
             cyc = False
+        self.split_after = None
+        self.admin_writes = 0
+        if cyc == 'S':
+            self.split_after = 1
+            cyc = True
         kind = body[0]
         cfg = self.cfg
         admin = self.admin
@@ -838,6 +863,8 @@ class MasterWorld:
                         kind not in cfg['late_kinds']:
                     continue
                 menu.append(tuple(e) + (cyc,))
+            if kind in cfg.get('split_kinds', ()):
+                menu.append(tuple(e) + ('S',))
         return menu
 
     # -- canonical form -----------------------------------------------------------
